@@ -30,7 +30,7 @@ class Lemma:
 
 class Prop:
     def __init__(self, pid, contracts=(), claims=('*',), lemmas=(), structural=(), bounded=(),
-                 natives=None, assumptions=(), level='proof', explanation='', not_decided=()):
+                 natives=None, assumptions=(), level='proof', explanation='', not_decided=(), native_default=None):
         self.id = pid
         self.contracts = list(contracts)
         self.claims = list(claims)
@@ -42,6 +42,7 @@ class Prop:
         self.level = level
         self.explanation = explanation
         self.not_decided = list(not_decided)
+        self.native_default = native_default   # callable(oid, model) -> dict(holds=..., ...)
 
 
 def load_prop(pid):
@@ -209,6 +210,8 @@ def run_property(pid, tier='quick', update_ledger=False, verbose=False):
             violations += 1
             rp = os.path.join(replay_dir, '%s-%s.json' % (pid, _safe(oid)))
             native = prop.natives.get(oid)
+            if native is None and prop.native_default is not None:
+                native = (lambda m, _o=oid: prop.native_default(_o, m))
             rec = dict(property=pid, obligation=oid, clause=ob['detail'], model=ob['model'],
                        backends=ob['backends'], solver_output='sat (counter-model above)')
             suffix = ''
@@ -361,6 +364,8 @@ def replay_file(path):
         rec = json.load(fh)
     prop = load_prop(rec['property'])
     native = prop.natives.get(rec['obligation'])
+    if native is None and prop.native_default is not None:
+        native = (lambda m: prop.native_default(rec['obligation'], m))
     if native is None:
         print('no native replay for %s; solver model: %s' % (rec['obligation'], rec.get('model')))
         return 1
